@@ -75,7 +75,7 @@ class ERoute(Engine):
         if route == 'oct':
             n -= n % 3
         return {'avoid': bool(desc.get('avoid')), 'route': route, 'cls': g.pick(CLASSES), 'bits': g.bits(n), 'lsb0': g.chance(0.3),
-                'off': g.pick([0, 3, 8, 13]), 'slack': g.int(1, 3), 'toggle_w': g.pick([0, 0, 1, 2]), 'env_w': g.pick([0, 1, 2])}
+                'off': g.pick([0, 3, 8, 13]), 'slack': g.pick([0, 0, 1, 2, 3]), 'toggle_w': g.pick([0, 0, 1, 2]), 'env_w': g.pick([0, 1, 2])}
 
     # -------------------------------------------------------------------------------------------------
     def start(self, cfg):
@@ -97,6 +97,7 @@ class ERoute(Engine):
             x = getattr(B, cls)(bin=''.join(c for c in str(cfg.get('bits', '')) if c in '01'))
         self.X = x
         self.T = self._twin(x)
+        self.derived = []          # (op, object derived from X, object derived from T): must stay equal for ever
         return {'route': cfg.get('route'), 'built': st, 'len': len(kernel.safe_bin(x))}
 
     def _twin(self, x):
@@ -121,7 +122,7 @@ class ERoute(Engine):
             allb = prefix_bits + body_bits
             fill = ('1' if (not body_bits or body_bits[-1] == '0') else '0') * ((-len(allb)) % 8)
             last = body_bits[-8:] if body_bits else '00000000'
-            slack = bytes([(~int(last.ljust(8, '0'), 2)) & 0xFF]) * max(1, int(cfg.get('slack', 1)))
+            slack = bytes([(~int(last.ljust(8, '0'), 2)) & 0xFF]) * max(0, int(cfg.get('slack', 1)))
             return bits_to_bytes(allb + fill) + slack
 
         if route == 'bin':
@@ -501,6 +502,13 @@ class ERoute(Engine):
                 disc = 'result-differs'
             incs.append(self.inc(f'route={route}|op={op}|{mode}|{disc}', cls=self.cls, event=ev, route_result=_short(ox), twin_result=_short(ot),
                                  content=kernel.safe_bin(self.T)[:100]))
+        if stx == 'ok' and stt == 'ok' and op in DERIVING and not incs:
+            fx, ft = _flat_bits(vx), _flat_bits(vt)
+            if len(fx) == len(ft):
+                for dx, dt in zip(fx, ft):
+                    if dx is not self.X and dt is not self.T and len(kernel.safe_bin(dx)) <= 4096:
+                        self.derived.append((op, dx, dt))
+                self.derived = self.derived[-6:]
         incs.extend(self._compare_state(f'op={op}', ev, quiet=bool(incs)))
         self.state(route, self.cls, mode, min(len(kernel.safe_bin(self.T)) // 16, 5))
         self.transition(op, stx, mode, route in FILE_ROUTES)
@@ -509,6 +517,18 @@ class ERoute(Engine):
     def _compare_state(self, label, ev, quiet=False):
         """Contents (and stream positions) of the pair agree; resynchronise the twin from the subject otherwise."""
         incs = []
+        # objects derived earlier from the two members of the pair were equal when made and must remain equal
+        keep = []
+        for dop, dx, dt in getattr(self, 'derived', []):
+            if kernel.safe_bin(dx) != kernel.safe_bin(dt):
+                self.probe('derived_pair_diverged')
+                if not quiet:
+                    mode = 'lsb0' if self.B.options.lsb0 else 'msb0'
+                    incs.append(self.inc(f'route={self.cfg.get("route")}|derived-by={dop}|{mode}|derived-objects-diverged-after:{label}', cls=self.cls, event=ev,
+                                         from_route=kernel.safe_bin(dx)[:100], from_twin=kernel.safe_bin(dt)[:100], derived_cls=type(dx).__name__))
+            else:
+                keep.append((dop, dx, dt))
+        self.derived = keep
         bx, bt = kernel.safe_bin(self.X), kernel.safe_bin(self.T)
         px, pt = getattr(self.X, '_pos', None), getattr(self.T, '_pos', None)
         if bx != bt or px != pt:
@@ -526,6 +546,20 @@ class ERoute(Engine):
 
     def simplify(self, ev):
         return kernel.simplify_generic(ev)
+
+
+DERIVING = ('copy', 'to_cls', 'getslice', 'add', 'radd', 'add_twin', 'mul', 'rmul', 'invert', 'lshift', 'rshift', 'and', 'or', 'xor', 'join',
+            'cut', 'split', 'pack_bits', 'read', 'peek', 'readto', 'unpack', 'interp')
+
+
+def _flat_bits(v, out=None, depth=0):
+    out = [] if out is None else out
+    if kernel.is_bits(v):
+        out.append(v)
+    elif isinstance(v, (list, tuple)) and depth < 3:
+        for i in v[:8]:
+            _flat_bits(i, out, depth + 1)
+    return out
 
 
 def _short(o):
